@@ -261,7 +261,7 @@ func init() {
 					cfg.Via = "cli"
 					switch rng.Intn(6) {
 					case 0, 1:
-						cfg.Via, cfg.Delim = "cli-bf", ""
+						cfg.Via = "cli-bf" // the delimiter, if any, is stored with the branch by --set-file
 					case 2:
 						cfg.Via, cfg.Delim = "cli-cfg", ""
 					}
